@@ -46,8 +46,9 @@ UNPROVED = [
     "the textbook forms of the entropy-based scores (entropy_textbook, nmi_textbook, nce_textbook, v_textbook, "
     "emi_textbook, ami_textbook) are theorems about the model at the real-number instance; that binary64 "
     "evaluation of the same expressions stays within 1e-9 of the real value is compared, not proved",
-    "frames_are_labelAt (proved for contiguous segmentations starting at or before 0; with gaps: frames_carry_labelAt "
-    "wherever the annotation has a label) reads the frame times as the exact rationals i*frame_size; that numpy's "
+    "frames_are_labelAt (contiguous segmentations starting at or before 0) and frames_with_gaps (any sorted "
+    "non-overlapping annotation: labelAt completed by the label of a row ending exactly at the frame time, else None) "
+    "read the frame times as the exact rationals i*frame_size; that numpy's "
     "binary64 arange(n)*frame_size and searchsorted land on the same side of every boundary is compared on the "
     "exact lattice and the decimal stream, not proved",
 ]
